@@ -425,10 +425,11 @@ func (r *Receiver) DeleteHandlerFunc(w http.ResponseWriter, req *http.Request) {
 	slog.Debug("DeleteHandlerFunc called", "url", req.URL.Path)
 }
 
-// removeOldSegments removes all media segments in trDir with sequence number up to and including lastSeqNr.
+// removeOldSegments removes all media segments in trDir with sequence number up to and including lastSeqNr,
+// except the ones that keep returns true for.
 // These are not only the ones falling out of the buffer one by one, but also segments left behind
 // before a gap in the sequence numbers or before a restart of the receiver.
-func removeOldSegments(log *slog.Logger, trDir string, lastSeqNr uint32) {
+func removeOldSegments(log *slog.Logger, trDir string, lastSeqNr uint32, keep func(seqNr uint32) bool) {
 	entries, err := os.ReadDir(trDir)
 	if err != nil {
 		log.Warn("Failed to list segments", "dir", trDir, "err", err)
@@ -442,6 +443,9 @@ func removeOldSegments(log *slog.Logger, trDir string, lastSeqNr uint32) {
 		seqNr, err := strconv.ParseUint(strings.TrimSuffix(name, filepath.Ext(name)), 10, 32)
 		if err != nil || uint32(seqNr) > lastSeqNr {
 			continue // Init segment or segment inside the buffer
+		}
+		if keep(uint32(seqNr)) {
+			continue
 		}
 		deleteSegPath := filepath.Join(trDir, name)
 		log.Debug("Deleting old segment", "path", deleteSegPath)
